@@ -195,13 +195,13 @@ PROPS["C15"] = {
 PROPS["C16"] = {
     "title": "ASCII ingestion is total and path-independent",
     "kani": lambda tier: tables(TABLES_ALL) + ["bitops_avx2::verif::a_block"],
-    "verus": [("hashn", r"^DnaString::from_acgt_bytes_hashn$")],
+    "verus": [("hashn", r"^DnaString::(from_acgt_bytes_hashn|dna_only_step)$|^dna_only_base_to_bits$")],
     "bounded": lambda tier: [("dna_string::verif::d_from_acgt_bytes_b_31", "from_acgt_bytes on 31 bytes, vector path available and not (feature detection nondeterministic)"),
                              ("dna_string::verif::d_to_bytes_b_33", "to_ascii_vec on 33 bases"),
                              ("dna_string::verif::d_hashn_concrete", "from_acgt_bytes_hashn on eight concrete 8-byte reads (a fixed-input check, not a proof)")],
     "design_ref": "DESIGN.md §6 C16",
     "undecided": ["from_acgt_bytes chunk loop / tail composition for every length and to_ascii_vec round trip: fixed-length bounded stand-ins only",
-                  "from_dna_only_string: no tractable harness (str/char iteration exhausts CBMC; `str` byte reasoning is outside the Verus subset), not decided; from_acgt_bytes_hashn IS decided (unit hashn), but relative to std's hasher being a function of the bytes fed (vstd's DefaultHasher specification plus assumed contracts for the two Hash::hash calls and for cloning the hasher)"],
+                  "from_dna_only_string: its loop over `dna.chars()` is outside both verifiers (str iteration); the body of that loop IS under contract (hashn::dna_only_step, rule R15: a DNA letter extends the current string, any other character closes a non-empty current string and starts a new one), the whole function is not; from_acgt_bytes_hashn IS decided (unit hashn), but relative to std's hasher being a function of the bytes fed (vstd's DefaultHasher specification plus assumed contracts for the two Hash::hash calls and for cloning the hasher)"],
     "trust": ["the two AVX2 intrinsic models (_mm256_shuffle_epi8, _mm256_testc_si256) follow the Intel SDM; validated natively against the CPU by `debruijn-replay --validate-avx-models`, not proved"],
     "level_text": "The six byte tables are proved for all 256 byte values and the vector path (convert_bases + pack_32_bases, real code incl. unsafe loadu) is proved equal to the scalar path on ALL 256^32 blocks, lane by lane, with the valid flag exact (Kani, complete). DnaString::from_acgt_bytes_hashn is proved as a whole function, for every input (Verus unit hashn, rule R20): the result has one base per byte; A/C/G/T in either case give 0/1/2/3; every other byte gives a base < 4 that is a function of the read name and the position only (finish of a hasher fed exactly the read name and the position) - hence repeatable and independent of the vector path, the other bytes and the string length.",
     "level_note": "Trusted: Kani/CBMC; two intrinsic models (Kani cannot translate pshufb / vptest). The chunking loop of from_acgt_bytes is not under an unbounded contract (undecided_clauses).",
